@@ -567,3 +567,61 @@ def r8(R):
                     key='.dat line split on every blank')
     R.require(n >= 3, 'expected the .dat readers of scandat, do_recover '
               'and do_verify')
+
+
+@rule('C18.R9', 'a backup refuses a time stamp any file of the repository '
+      'already carries: the files of one time stamp share their name up to '
+      'the extension, and their .dat and .index', min_instances=2)
+def r9(R):
+    m = R.prog.module('ZODB.scripts.repozo')
+
+    def checks_stamp(fnode):
+        """lists the repository, compares file-name roots, refuses"""
+        lists = any(isinstance(c, ast.Call) and dotted(c.func) == (
+            'os', 'listdir') for c in ast.walk(fnode))
+        roots = any(isinstance(c, ast.Call) and dotted(c.func) == (
+            'os', 'path', 'splitext') for c in ast.walk(fnode))
+        refuses = any(isinstance(r_, ast.Raise) and r_.exc is not None and
+                      'WouldOverwriteFiles' in ast.unparse(r_.exc)
+                      for r_ in ast.walk(fnode))
+        return lists and roots and refuses
+
+    helpers = {f.name for f in m.functions.values()
+               if checks_stamp(f.node) and not f.name.startswith('do_')}
+    n = 0
+    for name in ('do_full_backup', 'do_incremental_backup'):
+        f = fn(R, name)
+        g, b, F = R.cfg(f, None, max_depth=0)
+        n += 1
+        R.instance(name, stamp_checks=sorted(helpers))
+
+        def edge(node, st, lab, tgt, F=F):
+            if lab in ('e', 'eb'):
+                return st
+            for op in F.ops(node):
+                if op.kind == 'call' and op.path and op.path[-1].split(
+                        '.')[-1] in helpers:
+                    return True
+            return st
+
+        def at(node, st, F=F, name=name):
+            for op in F.ops(node):
+                if op.kind == 'call' and op.path and op.path[-1].split(
+                        '.')[-1] in ('save', 'copyfile') and not st:
+                    return Violation(
+                        '%s writes into the repository without having '
+                        'refused a time stamp that another file already '
+                        'carries: a full backup and an increment taken '
+                        'within one second share T.index and T.dat, and '
+                        'recovery stops at T.fs ignoring T.deltafs (it sorts '
+                        'after it): the restored file is not the last '
+                        'backup' % name)
+            return st
+
+        own = checks_stamp(f.node)
+        vs, stats = explore(g, own, at=at, edge=edge)
+        R.count(stats)
+        for v in vs:
+            R.violation(v.node, v.message, g, v.path,
+                        key='time stamp not checked against the repository')
+    R.require(n >= 2, 'backup functions not found')
